@@ -89,29 +89,30 @@ Section Entries.
 
   Lemma iflat_item_forall : forall it parent k,
     Forall (key_wf line) parent -> key_wf line k -> pair_wf line it ->
-    (forall p v, Forall (key_wf line) p -> value_wf (if line then CLine else CInl) v ->
+    (forall p v, p <> [] -> Forall (key_wf line) p -> value_wf (if line then CLine else CInl) v ->
                  (match v with VInline _ _ _ true _ _ => False | _ => True end) -> Q p v) ->
     Forall (fun pv => Q (fst pv) (snd pv)) (iflat_item parent k it).
   Proof.
     induction it as [it IH] using item_dotted_ind. intros parent k Hp Hk Hw HQ.
     destruct it as [|v|t|ts sp]; try contradiction.
     assert (Hpk : Forall (key_wf line) (parent ++ [k])) by (apply Forall_app; split; [exact Hp|constructor; [exact Hk|constructor]]).
+    assert (Hne : parent ++ [k] <> []) by (destruct parent; discriminate).
     destruct v as [x r d|vals tr c d sp|sub pre im dt d sp].
-    - cbn [iflat_item]. constructor; [|constructor]. cbn [fst snd]. apply HQ; [exact Hpk|exact Hw|exact I].
-    - cbn [iflat_item]. constructor; [|constructor]. cbn [fst snd]. apply HQ; [exact Hpk|exact Hw|exact I].
+    - cbn [iflat_item]. constructor; [|constructor]. cbn [fst snd]. apply HQ; [exact Hne|exact Hpk|exact Hw|exact I].
+    - cbn [iflat_item]. constructor; [|constructor]. cbn [fst snd]. apply HQ; [exact Hne|exact Hpk|exact Hw|exact I].
     - destruct dt.
       + cbn [iflat_item]. specialize (IH sub pre im d sp eq_refl). cbn [pair_wf] in Hw. destruct Hw as (_ & _ & Hall).
         clear -IH Hall Hpk HQ. induction sub as [|[k1 i1] sub IHs]; [constructor|]. cbn [flat_map fst snd].
         inversion IH as [|? ? H1 H2]; subst. cbn [all_P fst snd] in Hall. destruct Hall as [[Hk1 Hw1] Hall].
         apply Forall_app. split; [apply H1; assumption|apply IHs; assumption].
-      + cbn [iflat_item]. constructor; [|constructor]. cbn [fst snd]. apply HQ; [exact Hpk|exact Hw|exact I].
+      + cbn [iflat_item]. constructor; [|constructor]. cbn [fst snd]. apply HQ; [exact Hne|exact Hpk|exact Hw|exact I].
   Qed.
 End Entries.
 
 Lemma iflat_forall line (Q : list key -> value -> Prop) parent items :
   Forall (key_wf line) parent ->
   all_P (fun kv => key_wf line (fst kv) /\ pair_wf line (snd kv)) items ->
-  (forall p v, Forall (key_wf line) p -> value_wf (if line then CLine else CInl) v ->
+  (forall p v, p <> [] -> Forall (key_wf line) p -> value_wf (if line then CLine else CInl) v ->
                (match v with VInline _ _ _ true _ _ => False | _ => True end) -> Q p v) ->
   Forall (fun pv => Q (fst pv) (snd pv)) (iflat parent items).
 Proof.
